@@ -73,9 +73,48 @@ package keeper
 //@   hint strHas(str_store, bytesval(receiverAddr), bytesval(senderAddr)) ==> 0 <= Amt(x0.Deposit) * vf && Amt(x0.Deposit) * vf <= Amt(x0.Deposit) * ONE
 //@   ensures @needs_funded_stream err == nil ==> strHas(old(str_store), r, sd) && Amt(x0.Deposit) > 0
 //@   ensures @released_exactly err == nil ==> Amt(total) == rel && Amt(remaining) == Amt(x0.Deposit) - rel && total.Denom == dn && remaining.Denom == dn
+//@   ensures @wellformed err == nil ==> !isnil(remaining.Amount) && !isnil(total.Amount) && !isnil(recv.Amount) && !isnil(fee.Amount)
 //@   ensures @fee_split err == nil ==> Amt(fee) == (rel * vf) / ONE && Amt(recv) + Amt(fee) == rel && fee.Denom == dn && recv.Denom == dn
 //@   ensures @stream_updated err == nil ==> str_store == strPut(old(str_store), r, sd, x1) && x1.Deposit == remaining && x1.LastOutflowTime == now && x1.FlowRate == x0.FlowRate && x1.DepositZeroTime == x0.DepositZeroTime && x1.Cancellable == x0.Cancellable
 //@   ensures @rejected_keeps_streams err != nil ==> str_store == old(str_store)
 //@   ensures @escrow_pays_receiver_and_fee err == nil ==> forall a `BytesV`, d string :: {balOf(bank_bal, a, d)} balOf(bank_bal, a, d) == balOf(old(bank_bal), a, d) - ((a == esc && d == dn) ? rel : 0) + ((a == r && d == dn) ? Amt(recv) : 0) + ((a == fc && d == dn) ? Amt(fee) : 0)
 //@   ensures @bank_ok BANK_OK(bank_bal)
+//@   ensures @third_parties_unaffected forall a `BytesV`, d string :: {bankSpendable(bank_bal, a, d)} a != esc && a != r && a != fc ==> bankSpendable(bank_bal, a, d) == bankSpendable(old(bank_bal), a, d)
 //@   ensures @never_stranded strHas(old(str_store), r, sd) && Amt(x0.Deposit) > 0 && balOf(old(bank_bal), esc, dn) >= Amt(x0.Deposit) && !bankBlocked(r) ==> err == nil
+
+// A top-up.  If the stream has expired it is first settled (everything left is released), the flow restarts now
+// and the zero time is now + floor(topUp/rate) s; otherwise the zero time is extended by floor(topUp/rate) s.
+//@ func Keeper.AddDeposit(ctx, receiverAddr, senderAddr, topUpDeposit) (ok, err)
+//@   props C10 C11 C12
+//@   requires 1 <= len(receiverAddr) && len(receiverAddr) <= 255 && 1 <= len(senderAddr) && len(senderAddr) <= 255
+//@   requires STR_WF(str_store) && STR_RATE(str_store) && STR_TIME(str_store, UnixNs(blockTime(ctx))) && strParamsSet(str_store) && BANK_OK(bank_bal)
+//@   requires !isnil(strParams(str_store).ValidatorFee) && 0 <= dval(strParams(str_store).ValidatorFee) && dval(strParams(str_store).ValidatorFee) <= ONE
+//@   requires !isnil(topUpDeposit.Amount) && 0 < Amt(topUpDeposit) && Amt(topUpDeposit) < P255 && validDenom(topUpDeposit.Denom)
+//@   requires strHas(str_store, bytesval(receiverAddr), bytesval(senderAddr)) ==> Amt(strGet(str_store, bytesval(receiverAddr), bytesval(senderAddr)).Deposit) + Amt(topUpDeposit) < P255
+//@   let r := bytesval(receiverAddr)
+//@   let sd := bytesval(senderAddr)
+//@   let x0 := strGet(old(str_store), bytesval(receiverAddr), bytesval(senderAddr))
+//@   let x1 := strGet(str_store, bytesval(receiverAddr), bytesval(senderAddr))
+//@   let now := blockTime(ctx)
+//@   let dn := x0.Deposit.Denom
+//@   let esc := bytesval(modAddr("stream"))
+//@   let fc := bytesval(modAddr(k.feeCollectorName))
+//@   let vf := dval(strParams(old(str_store)).ValidatorFee)
+//@   let expired := UnixNs(x0.DepositZeroTime) <= UnixNs(now)
+//@   let rel := (expired && Amt(x0.Deposit) > 0) ? Amt(x0.Deposit) : 0
+//@   let feeAmt := (rel * vf) / ONE
+//@   let ext := Amt(topUpDeposit) / x0.FlowRate
+//@   modifies str_store, bank_bal
+//@   nopanic
+//@   hint strHas(str_store, bytesval(receiverAddr), bytesval(senderAddr)) ==> 0 <= Amt(x0.Deposit) * vf && Amt(x0.Deposit) * vf <= Amt(x0.Deposit) * ONE
+//@   hint strHas(str_store, bytesval(receiverAddr), bytesval(senderAddr)) ==> x0.FlowRate * (Amt(topUpDeposit) / x0.FlowRate) <= Amt(topUpDeposit)
+//@   ensures @accepted err == nil ==> ok && strHas(old(str_store), r, sd) && topUpDeposit.Denom == dn && ext <= MAXDUR
+//@   ensures @rejected err != nil ==> !ok
+//@   ensures @stream_updated err == nil ==> str_store == strPut(old(str_store), r, sd, x1) && x1.FlowRate == x0.FlowRate && x1.Cancellable == x0.Cancellable
+//@   ensures @deposit err == nil ==> Amt(x1.Deposit) == Amt(x0.Deposit) - rel + Amt(topUpDeposit) && x1.Deposit.Denom == dn && !isnil(x1.Deposit.Amount)
+//@   ensures @zero_time err == nil ==> UnixNs(x1.DepositZeroTime) == (expired ? UnixNs(now) : UnixNs(x0.DepositZeroTime)) + ext * NS
+//@   ensures @flow_restarts_when_expired err == nil ==> x1.LastOutflowTime == (expired ? now : x0.LastOutflowTime)
+//@   ensures @rate_sustained err == nil ==> rateOK(x1)
+//@   ensures @bank err == nil ==> forall a `BytesV`, d string :: {balOf(bank_bal, a, d)} balOf(bank_bal, a, d) == balOf(old(bank_bal), a, d) - ((a == esc && d == dn) ? rel : 0) + ((a == r && d == dn) ? rel - feeAmt : 0) + ((a == fc && d == dn) ? feeAmt : 0) - ((a == sd && d == dn) ? Amt(topUpDeposit) : 0) + ((a == esc && d == dn) ? Amt(topUpDeposit) : 0)
+//@   ensures @bank_ok BANK_OK(bank_bal)
+//@   ensures @never_stranded strHas(old(str_store), r, sd) && topUpDeposit.Denom == dn && ext <= MAXDUR && bankSpendable(old(bank_bal), sd, dn) >= Amt(topUpDeposit) && balOf(old(bank_bal), esc, dn) >= Amt(x0.Deposit) && !bankBlocked(r) && sd != esc && sd != r && sd != fc && validTime(mkTime((expired ? UnixNs(now) : UnixNs(x0.DepositZeroTime)) + ext * NS)) ==> err == nil
